@@ -49,23 +49,24 @@ theorem exec_use_zero (l : Nat) (hl : l < s.n) (ho : s.closed l = false) : exec 
   simp [micro, h2, h1]
 
 theorem exec_use_toobig (l : Nat) (amt : Int) (hl : l < s.n) (ha : 0 < amt) (ho : s.closed l = false)
-    (hb : amt.toNat > s.cap l) : exec s (.use l amt) = answer s .errCap := by
+    (hb : amt.toNat > effCap s.cap (s.chain l) (s.cap l)) : exec s (.use l amt) = answer s .errCap := by
   rw [exec_use_body s hf l amt hl (by omega), ← unlock_answer s _ hf]
   have h1 : (lockApi s).closed l = false := ho
   have h2 : l < (lockApi s).n ∧ (lockApi s).holder = .api := ⟨hl, rfl⟩
   have h3 : ¬ amt.toNat = 0 := by omega
-  have h4 : amt.toNat > (lockApi s).cap l := hb
+  have h4 : amt.toNat > effCap (lockApi s).cap ((lockApi s).chain l) ((lockApi s).cap l) := hb
   simp [micro, h2, h1, h3, h4]
 
 theorem exec_use_room (l : Nat) (amt : Int) (hl : l < s.n) (ha : 0 < amt) (ho : s.closed l = false)
-    (hb : amt.toNat ≤ s.cap l) :
+    (hb : amt.toNat ≤ effCap s.cap (s.chain l) (s.cap l)) :
     exec s (.use l amt) =
       if fits s.cap s.used (s.chain l) amt.toNat then doUseGrant s l amt.toNat else doUseWait s l amt.toNat := by
   rw [exec_use_body s hf l amt hl (by omega), ← unlock_useGrant s _ _ hf, ← unlock_useWait s _ _ hf]
   have h1 : (lockApi s).closed l = false := ho
   have h2 : l < (lockApi s).n ∧ (lockApi s).holder = .api := ⟨hl, rfl⟩
   have h3 : ¬ amt.toNat = 0 := by omega
-  have h4 : ¬ amt.toNat > (lockApi s).cap l := by show ¬ amt.toNat > s.cap l; omega
+  have h4 : ¬ amt.toNat > effCap (lockApi s).cap ((lockApi s).chain l) ((lockApi s).cap l) := by
+    show ¬ amt.toNat > effCap s.cap (s.chain l) (s.cap l); omega
   have h5 : fits (lockApi s).cap (lockApi s).used ((lockApi s).chain l) amt.toNat = fits s.cap s.used (s.chain l) amt.toNat := rfl
   simp only [micro, h2, and_self, if_true, h1, Bool.false_eq_true, if_false, h3, h4, h5]
 
